@@ -461,6 +461,7 @@ def qr_move_scp(asce, ctx, msg):
             # request an association with destination send C-STORE
             service = assoc.get_scu(data_set.SOPClassUID)
             status = service(data_set, completed)
+            completed += 1
             if status.is_failure:
                 failed += 1
             if status.is_warning:
@@ -470,7 +471,6 @@ def qr_move_scp(asce, ctx, msg):
             rsp.num_of_completed_sub_ops = completed
             rsp.num_of_failed_sub_ops = failed
             rsp.num_of_warning_sub_ops = warning
-            completed += 1
 
             # send response
             asce.send(rsp, ctx.id)
